@@ -616,6 +616,33 @@ def chk_search(inp):
         expect(got == want, '%s/%s' % (name, tag), want, got)
 
 
+def _search_flags_inputs(tier, seed):
+    t = [('f0', 'f1'), ('Apple', 1), ('apple', 2), ('BANANA', 3), ('x\napple', 4), (None, 5)]
+    for flags in (re.I, re.M, re.I | re.M):
+        for pat in ('apple', '^apple', 'a'):
+            for field in (None, 'f0'):
+                yield (t, field, pat, flags)
+
+
+@group('search.flags', _search_flags_inputs)
+def chk_search_flags(inp):
+    """the flags keyword reaches the regex in search AND in searchcomplement: with the same arguments they partition the table"""
+    table, field, pat, flags = inp
+    prog = re.compile(pat, flags)
+    if field is None:
+        pred = lambda r: any(prog.search(str(v)) is not None for v in r)
+    else:
+        j = fidx(table[0], field)
+        pred = lambda r: prog.search(str(r[j])) is not None
+    args = (pat,) if field is None else (field, pat)
+    for name, call, want_pred in (('search', lambda: etl.search(table, *args, flags=flags), pred),
+                                  ('searchcomplement', lambda: etl.searchcomplement(table, *args, flags=flags), lambda r: not pred(r)),
+                                  ('search/complement', lambda: etl.search(table, *args, flags=flags, complement=True), lambda r: not pred(r))):
+        want = filt(table, want_pred)
+        got = mat(call, name + '/flags')
+        expect(got == want, name + '/flags', want, got)
+
+
 def _search_short_inputs(tier, seed):
     for t in _search_tables(tier):
         if any(len(r) < 2 for r in t[1:]):
